@@ -21,15 +21,15 @@ import (
 
 // jv is the tagged abstract value.
 type jv struct {
-	T   string   `json:"t"`
-	M   []jMem   `json:"m,omitempty"`
-	A   []jv     `json:"a,omitempty"`
-	S   []int    `json:"s,omitempty"`
-	N   *tr.Big  `json:"n,omitempty"`
-	Neg int      `json:"neg,omitempty"`
-	D   []int    `json:"d,omitempty"`
-	E   int      `json:"e,omitempty"`
-	B   bool     `json:"b,omitempty"`
+	T   string  `json:"t"`
+	M   []jMem  `json:"m,omitempty"`
+	A   []jv    `json:"a,omitempty"`
+	S   []int   `json:"s,omitempty"`
+	N   *tr.Big `json:"n,omitempty"`
+	Neg int     `json:"neg,omitempty"`
+	D   []int   `json:"d,omitempty"`
+	E   int     `json:"e,omitempty"`
+	B   bool    `json:"b,omitempty"`
 }
 type jMem struct {
 	K []int `json:"k"`
@@ -466,12 +466,12 @@ func randValue(r *rand.Rand, depth int) jv {
 
 func c14nBad(w *tr.Writer) {
 	cases := map[string][]string{
-		"empty":      {"", " ", "\n\t "},
-		"truncated":  {`{`, `{"a"`, `{"a":`, `{"a":1`, `{"a":1,`, `[`, `[1`, `[1,`, `[1,2`, `"abc`, `{"a":[1,{"b":2}`, `tru`, `-`, `1.`, `1e`, `{"a":{"b":1}`},
-		"trailing":   {`{"a":1} x`, `{"a":1}}`, `[1,2]]`, `1 2`, `{"a":1}{"b":2}`, `"a" "b"`, `null null`, `{"a":1},`},
-		"syntax":     {`{a:1}`, `{"a" 1}`, `{"a":1 "b":2}`, `[1 2]`, `{"a":1,}`, `[1,]`, `{,"a":1}`, `'a'`, `{"a":01}`, `+1`, `.5`, `0x10`, `{"a":NaN}`, "{\"a\":\"b\nc\"}"},
-		"badutf8":    {"\"\xff\"", "\"a\xc3\"", "{\"\xed\xa0\x80\":1}", "\"\xf8\x88\x80\x80\x80\"", "[\"ok\",\"\xc0\xaf\"]"},
-		"hugenumber": {`1e400`, `-1e400`, `{"a":1e999}`, `[1E+400]`},
+		"empty":        {"", " ", "\n\t "},
+		"truncated":    {`{`, `{"a"`, `{"a":`, `{"a":1`, `{"a":1,`, `[`, `[1`, `[1,`, `[1,2`, `"abc`, `{"a":[1,{"b":2}`, `tru`, `-`, `1.`, `1e`, `{"a":{"b":1}`},
+		"trailing":     {`{"a":1} x`, `{"a":1}}`, `[1,2]]`, `1 2`, `{"a":1}{"b":2}`, `"a" "b"`, `null null`, `{"a":1},`},
+		"syntax":       {`{a:1}`, `{"a" 1}`, `{"a":1 "b":2}`, `[1 2]`, `{"a":1,}`, `[1,]`, `{,"a":1}`, `'a'`, `{"a":01}`, `+1`, `.5`, `0x10`, `{"a":NaN}`, "{\"a\":\"b\nc\"}"},
+		"badutf8":      {"\"\xff\"", "\"a\xc3\"", "{\"\xed\xa0\x80\":1}", "\"\xf8\x88\x80\x80\x80\"", "[\"ok\",\"\xc0\xaf\"]"},
+		"hugenumber":   {`1e400`, `-1e400`, `{"a":1e999}`, `[1E+400]`},
 		"nonstringkey": {`{1:2}`, `{null:1}`, `{[1]:2}`},
 	}
 	for cls, ins := range cases {
